@@ -6,17 +6,43 @@ spec:     spec/ReproDoc.tla (reference: document = parts, paragraph = field inst
 binding:  (a) complete LTS of closed configurations replayed into debian._deb822_repro with
               dump()/keys/(name,i)/re-parse compared after every call
           (b) recorded histories on random documents validated by spec/TraceReproDoc.tla
-negative controls: corrupted traces (swapped fields, wrong outcome, lost comment, merged paragraph)
+negative controls: corrupted traces (swapped fields, wrong outcome, lost comment, merged paragraph,
+          two tied neighbours exchanged after a keyed sort); spec level: ForwardLoopInOrderFirst
+          (implementation layer) and MC_ReproDoc_neg_sort.cfg (a sort whose ties fall back to the name
+          order instead of the current order violates SortLawsFor -> NegSortByLaws reported by TLC)
+
+API surface / domain (the complete table of entry points and input forms is in the docstring of
+harness/repro_common.py, shared with C05); what this check adds to the statement's operation list:
+  operation of the statement            model action (ReproDoc.tla)          exercised by
+  order_first/last/before/after         OrderFirst/OrderLast/Rel             lts legs + trace leg
+  sort_fields() / key=None / str.lower  SortFields (RSort)                   lts legs + trace leg
+  sort_fields(key=f), sort_fields(f)    SortBy(p, kt) (RSortBy): the         lts legs: every two-valued key table with a smallest
+    arbitrary key function; documented     STABLE sort of the CURRENT order     class + the reversed order, from EVERY reachable state
+    "same semantics as for sorted"         by kt[name]; invariants              (i.e. after every history of moves / sorts / edits);
+    -> in the domain ("sorting fields";    SortByLaws (permutation, ascending,  trace leg: random tables (one-hot first/last, buckets,
+    order equals a reference list          ties keep current order) and         constant, 2-4 levels, reversed) on 5- and 30-name
+    model = list.sort(key=f))              DefaultSortIsByName                  documents, both paragraph classes
+  set/del indexed and unindexed         Assign / Del                         lts legs + trace leg
+  Deb822FileElement.insert/append       InsertPara / AppendPara              lts legs (D, E) + trace leg
+  out of domain / unspecified: key functions that raise or return mutually incomparable values; the
+    spelling in which the key function sees a name (it is folded before the table lookup);
+    Deb822Dict.sort_fields of debian.deb822 (not a format-preserving document).
+input side (SIZE_STRESS part 4): start documents reach the parser through 17 kinds of line source /
+  file object (repro_common.FORMS; compressed kinds over memory or a real file) and a share of them
+  has a line end steered to 2^k-1 / 2^k / 2^k+1 (k = 9..17, bytes or code points); the expected
+  document is form-independent, the TLA+ case is unchanged; evidence in ctx.extra["file_object_kinds"]
+  and ctx.extra["aligned_cases"].
 """
 import repro_common as rc
 
 MANIFEST = dict(
-    technique="TLA+ spec ReproDoc (documents as sequences of field instances) model-checked by TLC in closed configurations; complete LTS replayed into the format-preserving parser; recorded histories validated by TLC (TraceReproDoc)",
-    text="The reference model makes 'only whole fields/paragraphs are permuted, removed or inserted, byte for byte' literal: the text of a field is a function of its instance record, so the dump must equal the concatenation of instance texts in model order (modulo the one final newline). TLC checks the model's own invariants (no blob duplicated, comments stay with their field, separators kept, paragraphs never adjacent, failing calls change nothing) over closed state spaces for paragraphs with unique and duplicated fields, document-level insert/append shapes and a mixed configuration; every LTS transition (quick: a seeded sample plus all transitions near the start) and long random walks are replayed into the real objects with dump, key order, (name,i) resolution, read-back values and a fresh re-parse compared after each call; random histories on random documents (5 names, 1-3 paragraphs, free comments, with/without final newline) are validated by TLC against the same actions.",
+    technique="TLA+ spec ReproDoc (documents as sequences of field instances; keyed sorts as stable sorts of the current order) model-checked by TLC in closed configurations; complete LTS replayed into the format-preserving parser; recorded histories validated by TLC (TraceReproDoc)",
+    text="The reference model makes 'only whole fields/paragraphs are permuted, removed or inserted, byte for byte' literal: the text of a field is a function of its instance record, so the dump must equal the concatenation of instance texts in model order (modulo the one final newline). TLC checks the model's own invariants (no blob duplicated, every keyed sort is the stable sort of the current order, comments stay with their field, separators kept, paragraphs never adjacent, failing calls change nothing) over closed state spaces for paragraphs with unique and duplicated fields, document-level insert/append shapes and a mixed configuration; every LTS transition (quick: a seeded sample plus all transitions near the start) and long random walks are replayed into the real objects with dump, key order, (name,i) resolution, read-back values and a fresh re-parse compared after each call; random histories on random documents (5 names, 1-3 paragraphs, free comments, with/without final newline) are validated by TLC against the same actions.",
     note="Small-scope: 3 names, <= 4 fields per paragraph in the closed configurations; layouts/values are sampled per replay. Out-of-range indexes and re-ordering an absent key relative to itself are unspecified (any error type accepted); deleting the last field of a paragraph is outside the domain; the side of a free comment on which insert() lands and the formatting of newly written values are diagnostics only. Trusted: TLC, the concretizer, the projection by text lookup.",
     design="5 (C10)")
 
-ALLOPS = ["get", "set", "set", "del", "first", "last", "before", "after", "before", "after", "sort", "insert", "append"]
+ALLOPS = ["get", "set", "set", "del", "first", "last", "before", "after", "before", "after", "sort", "sortby", "sortby",
+          "insert", "append"]
 
 
 def run(ctx):
@@ -26,19 +52,33 @@ def run(ctx):
         "dump compared modulo one newline at the very end of the document",
         "unspecified: exception type for out-of-range (name, i); order_before/after(k, k) with k absent",
     ]
-    impl_layer(ctx, quick)
+    # design-level runs (independent of /repo) go alongside the emission runs of the lts legs
+    also = [lambda: impl_layer(ctx, quick), lambda: sort_negative_control(ctx)]
+    binding_legs(ctx, quick, also)
+
+
+def sort_negative_control(ctx):
+    """non-vacuity of SortByLaws: a sort whose ties fall back to the name order is reported"""
+    import core
+    neg = ctx.tlc("MC_ReproDoc", "MC_ReproDoc_neg_sort.cfg", workers=1, count=False)
+    if neg.violated != "NegSortByLaws":
+        raise core.MachineryError("negative control: a sort breaking ties by name is not rejected by SortLawsFor (%r)" % (neg.violated,))
+    ctx.extra["negative_control_sort_ties_by_name"] = neg.violated
+
+
+def binding_legs(ctx, quick, also):
     if quick:
         rc.lts_legs(ctx, [("MC_ReproDoc_QA.cfg", (1, 2, 3), 1800, 60, 25, 1),
                           ("MC_ReproDoc_QB.cfg", (1, 2, 3), 1800, 60, 25, 1),
                           ("MC_ReproDoc_D.cfg", (1, 2), 800, 30, 6, 2),
-                          ("MC_ReproDoc_E.cfg", (1, 2), 1000, 40, 20, 1)])
+                          ("MC_ReproDoc_E.cfg", (1, 2), 1000, 40, 20, 1)], also)
         rc.trace_leg(ctx, 300, 20, ALLOPS)
     else:
         rc.lts_legs(ctx, [("MC_ReproDoc_A.cfg", (1, 2, 3), 30000, 600, 40, 2),
                           ("MC_ReproDoc_B.cfg", (1, 2, 3), 40000, 600, 40, 1),
                           ("MC_ReproDoc_C.cfg", (1, 2, 3), 30000, 600, 40, 1),
                           ("MC_ReproDoc_D.cfg", (1, 2), 10 ** 9, 200, 8, 4),
-                          ("MC_ReproDoc_E.cfg", (1, 2), 10 ** 9, 300, 30, 3)])
+                          ("MC_ReproDoc_E.cfg", (1, 2), 10 ** 9, 300, 30, 3)], also)
         rc.trace_leg(ctx, 5000, 30, ALLOPS)
 
 
@@ -50,7 +90,7 @@ def impl_layer(ctx, quick):
     cfgs = ["MC_ReproParaImpl_B.cfg"] + ([] if quick else ["MC_ReproParaImpl_C.cfg"])
     n = 0
     for cfg in cfgs:
-        r = ctx.tlc_must_hold("MC_ReproParaImpl", cfg, workers=4 if quick else None)
+        r = ctx.tlc_must_hold("MC_ReproParaImpl", cfg, workers=3 if quick else None)
         n += r.distinct
     neg = ctx.tlc("MC_ReproParaImpl", "MC_ReproParaImpl_neg.cfg", workers=2, count=False)
     if neg.violated not in ("Refines", "ByNameConsistent"):
